@@ -31,6 +31,17 @@ type Logger struct {
 	mu    sync.Mutex
 	Calls []LogCall
 	Keep  bool
+	// Tee, when set, receives every call as well (the repository's own logger writing into a buffer, for C18)
+	Tee TeeLogger
+}
+
+// TeeLogger is the logger interface of the reference server.
+type TeeLogger interface {
+	Infof(ctx context.Context, format string, args ...interface{})
+	Errorf(ctx context.Context, format string, args ...interface{})
+	Debugf(ctx context.Context, format string, args ...interface{})
+	Record(ctx context.Context, r map[string]string, obscure ...string)
+	Set(ctx context.Context, fields map[string]string, keys ...tq.ContextKey) context.Context
 }
 
 func (l *Logger) add(c LogCall) {
@@ -44,6 +55,9 @@ func (l *Logger) add(c LogCall) {
 
 // Infof ...
 func (l *Logger) Infof(ctx context.Context, format string, args ...interface{}) {
+	if l.Tee != nil {
+		l.Tee.Infof(ctx, format, args...)
+	}
 	if l.Keep {
 		l.add(LogCall{Level: "info", Msg: fmt.Sprintf(format, args...)})
 	}
@@ -51,6 +65,9 @@ func (l *Logger) Infof(ctx context.Context, format string, args ...interface{}) 
 
 // Errorf ...
 func (l *Logger) Errorf(ctx context.Context, format string, args ...interface{}) {
+	if l.Tee != nil {
+		l.Tee.Errorf(ctx, format, args...)
+	}
 	if l.Keep {
 		l.add(LogCall{Level: "error", Msg: fmt.Sprintf(format, args...)})
 	}
@@ -58,6 +75,9 @@ func (l *Logger) Errorf(ctx context.Context, format string, args ...interface{})
 
 // Debugf ...
 func (l *Logger) Debugf(ctx context.Context, format string, args ...interface{}) {
+	if l.Tee != nil {
+		l.Tee.Debugf(ctx, format, args...)
+	}
 	if l.Keep {
 		l.add(LogCall{Level: "debug", Msg: fmt.Sprintf(format, args...)})
 	}
@@ -71,6 +91,9 @@ func (l *Logger) Record(ctx context.Context, r map[string]string, obscure ...str
 			cp[k] = v
 		}
 		l.add(LogCall{Level: "record", Record: cp, Obscure: append([]string{}, obscure...)})
+	}
+	if l.Tee != nil {
+		l.Tee.Record(ctx, r, obscure...) // the caller's own map, as in production
 	}
 }
 
@@ -86,6 +109,9 @@ func (l *Logger) Set(ctx context.Context, fields map[string]string, keys ...tq.C
 			ks[i] = string(k)
 		}
 		l.add(LogCall{Level: "set", Fields: cp, SetKeys: ks})
+	}
+	if l.Tee != nil {
+		return l.Tee.Set(ctx, fields, keys...)
 	}
 	return ctx
 }
